@@ -176,18 +176,20 @@ def tree_task(task):
             for c, d in probs:
                 out.append((list(args), None, c, d))
         if with_git:
-            for gi in GITIGNORES:
+            # the same rules may live in the top-level .gitignore or in the repository's own exclude file
+            for gi, place in [(g, ".gitignore") for g in GITIGNORES] + [(g, ".git/info/exclude") for g in GITIGNORES if g]:
                 gd = tempfile.mkdtemp(prefix="mcverif_c15g_")
                 try:
                     build(gd, tree)
                     subprocess.run(["git", "init", "-q"], cwd=gd, capture_output=True)
-                    with open(os.path.join(gd, ".gitignore"), "w") as f:
+                    os.makedirs(os.path.dirname(os.path.join(gd, place)), exist_ok=True)
+                    with open(os.path.join(gd, place), "w") as f:
                         f.write(gi)
                     for args in [(), (".",)] + [(p,) for p, k in paths_of(tree)][:3]:
                         n += 1
                         o = impl.run_cli_observed(["--no-colors", "--use-gitignore"] + list(args), cwd=gd)
                         for c, d in judge(gd, args, o, gi):
-                            out.append((list(args), gi, c, d))
+                            out.append((list(args), gi, c + ("" if place == ".gitignore" else ":rules-in-info-exclude"), d))
                 finally:
                     shutil.rmtree(gd, ignore_errors=True)
     finally:
@@ -248,7 +250,8 @@ def run(tier, seed):
             feat, shape = feature(tree, args)
             failures.append(Failure("C15", f"{clause}:{feat}:{shape}" + (f":gitignore={gi.strip() or 'empty'}" if gi is not None else ""),
                                     f"tree {tree} args {args}: {detail}",
-                                    {"tree": _jsonable(tree), "args": list(args), "gitignore": gi, "tier": tier}))
+                                    {"tree": _jsonable(tree), "args": list(args), "gitignore": gi, "tier": tier,
+                                     "place": ".git/info/exclude" if "rules-in-info-exclude" in clause else ".gitignore"}))
     st.states = len(all_trees)
     st.transitions = st.runs
     st.outcomes = set(all_trees)
@@ -290,7 +293,9 @@ def replay(payload):
         extra = []
         if gi is not None:
             subprocess.run(["git", "init", "-q"], cwd=root, capture_output=True)
-            open(os.path.join(root, ".gitignore"), "w").write(gi)
+            place = payload.get("place", ".gitignore")
+            os.makedirs(os.path.dirname(os.path.join(root, place)), exist_ok=True)
+            open(os.path.join(root, place), "w").write(gi)
             extra = ["--use-gitignore"]
         o = impl.run_cli_observed(["--no-colors"] + extra + list(payload["args"]), cwd=root)
         feat, shape = feature(tree, payload["args"])
